@@ -3,6 +3,7 @@ package bpx
 import (
 	"fmt"
 	"sort"
+	"strings"
 	"time"
 
 	"github.com/gnolang/gno/tm2/pkg/bptree"
@@ -13,6 +14,12 @@ import (
 var keysA = []string{"a", "b", "b0", "c", "d", "e", "e0", "f", "g", "h", "i", "j", "j0", "k", "k0", "l", "m", "n", "o", "p", "q", "r", "s", "t", "u", "v", "w", "x"}
 
 func UniverseA() *Universe { return NewUniverse(keysA, 3 /* "c" is empty-valued on even versions */) }
+
+// UniverseA23 is the C23 universe: keysA plus four keys above "x" (same indexes for the old keys), so that descending
+// insertion — which leaves every node at minimum occupancy — can build a four-level tree.
+func UniverseA23() *Universe {
+	return NewUniverse(append(append([]string(nil), keysA...), "y", "y0", "z", "z0"), 3)
+}
 
 func (u *Universe) idx(k string) int {
 	i := u.Index([]byte(k))
@@ -77,40 +84,82 @@ type prefillA struct {
 	name   string
 	script []string
 	keys   []string // alphabet
+	ds, dv int      // quick-tier depth of the struct / versions family (0: default 4 / 5, -1: family not run in the quick tier)
+}
+
+// words splits a compact script.
+func words(s string) []string { return strings.Fields(s) }
+
+// desc is the script inserting the C23 universe in DESCENDING order from "z0" down to and including key `last`
+// (every leaf split is then a 50/50 split: all nodes right of the insertion point stay at minimum occupancy).
+func desc(last string) []string {
+	u := UniverseA23()
+	var out []string
+	for i := len(u.Keys) - 1; i >= 0; i-- {
+		out = append(out, "+"+string(u.Keys[i]))
+		if string(u.Keys[i]) == last {
+			return out
+		}
+	}
+	panic("desc: key not in universe: " + last)
 }
 
 // Prefill shapes of scale A (B=4: leaf capacity 4, min 2; inner capacity 4 children, min 2).
 var prefillsA = []prefillA{
-	{"empty", nil, []string{"b", "d", "f", "h", "j", "c"}},
-	{"full-leaf", []string{"+b", "+d", "+f", "+h", "S"}, []string{"a", "c", "d", "e", "h", "i"}},
-	{"just-split-90-10", []string{"+b", "+d", "+f", "+h", "+j", "S"}, []string{"a", "c", "f", "g", "h", "k"}},
-	{"two-level-min-occupancy", []string{"+b", "+d", "+f", "+h", "+j", "+c", "+e", "-c", "S"}, []string{"a", "b", "d", "e", "g", "j"}},
-	{"append-chain", []string{"+a", "+b", "+c", "+d", "+e", "+f", "+g", "+h", "+i", "+j", "+k", "+l", "+m", "+n", "S"}, []string{"c", "d", "g", "m", "n", "o"}},
+	{"empty", nil, []string{"b", "d", "f", "h", "j", "c"}, 0, 0},
+	{"full-leaf", []string{"+b", "+d", "+f", "+h", "S"}, []string{"a", "c", "d", "e", "h", "i"}, 0, 0},
+	{"just-split-90-10", []string{"+b", "+d", "+f", "+h", "+j", "S"}, []string{"a", "c", "f", "g", "h", "k"}, 0, 0},
+	{"two-level-min-occupancy", []string{"+b", "+d", "+f", "+h", "+j", "+c", "+e", "-c", "S"}, []string{"a", "b", "d", "e", "g", "j"}, 0, 0},
+	{"append-chain", []string{"+a", "+b", "+c", "+d", "+e", "+f", "+g", "+h", "+i", "+j", "+k", "+l", "+m", "+n", "S"}, []string{"c", "d", "g", "m", "n", "o"}, 0, 0},
 	{"three-level-min-occupancy", []string{"+a", "+b", "+c", "+d", "+e", "+f", "+g", "+h", "+i", "+j", "+k", "+l", "+m", "+n", "+o", "+p", "+q", "+r", "+s", "+t",
-		"-c", "-f", "-i", "-l", "-o", "-r", "S"}, []string{"a", "b", "e", "k", "t", "u"}},
+		"-c", "-f", "-i", "-l", "-o", "-r", "S"}, []string{"a", "b", "e", "k", "t", "u"}, 0, 0},
 	{"inner-node-full", []string{"+a", "+b", "+c", "+d", "+e", "+f", "+g", "+h", "+i", "+j", "+k", "+l", "+m", "+n", "+o", "+p", "+q", "+r", "+s", "+t", "+u", "+v", "+j0", "S"},
-		[]string{"a", "k0", "w"}},
-	{"two-versions", []string{"+b", "+d", "+f", "+h", "+j", "S", "+c", "-h", "S"}, []string{"b", "c", "e", "j"}},
-	{"three-versions-deep", []string{"+a", "+b", "+c", "+d", "+e", "+f", "+g", "+h", "+i", "+j", "S", "-b", "-e", "+k", "S", "+e0", "-j", "S"}, []string{"a", "d", "e0", "k"}},
+		[]string{"a", "k0", "w"}, 0, 0},
+	{"two-versions", []string{"+b", "+d", "+f", "+h", "+j", "S", "+c", "-h", "S"}, []string{"b", "c", "e", "j"}, 0, 0},
+	{name: "three-versions-deep", script: []string{"+a", "+b", "+c", "+d", "+e", "+f", "+g", "+h", "+i", "+j", "S", "-b", "-e", "+k", "S", "+e0", "-j", "S"}, keys: []string{"a", "d", "e0", "k"}, dv: 4},
+	// Rebalancing at INNER level, one or two removals away (fan-outs in the comments; B=4: inner nodes hold 2..4 children):
+	// ((3|2|2)|(2|2)): a removal on the right merges two leaves, the right inner node underflows and borrows the left one's last child
+	{name: "inner-borrow-from-left", script: append(desc("r"), "S"), keys: []string{"q", "s", "w", "y", "z0"}, dv: 4},
+	// ((2|2)|(2|2|2)): mirror image — the leftmost inner node underflows and borrows the right one's first child
+	{name: "inner-borrow-from-right", script: words("+a +b +c +d +e +f +g +h +i +j +k +l +m +n +o +p +q -c -f -i -l -o -a -d S"), keys: []string{"b", "c", "h", "j", "q"}, dv: -1},
+	// ((2|2)|(2|2)): nobody can spare — the inner nodes merge and the root collapses
+	{name: "inner-merge-root-collapse", script: words("+a +b +c +d +e +f +g +h +i +j +k +l +m +n -c -f -i -l -a -d S"), keys: []string{"b", "g", "j", "n", "o"}, dv: -1},
+	// ((3|2|2)|(2|2)|(2|2)): three inner nodes — the middle one borrows from the left, the right one merges into the middle
+	{name: "three-inner-nodes", script: append(desc("n"), "S"), keys: []string{"m", "n", "u", "x", "z"}, dv: -1},
+	// FOUR levels (((3|2|2)|(2|2)|(2|2))|((2|2)|(2|2))): one removal on the right cascades leaf merge -> inner merge ->
+	// underflow at height 2 -> borrow of an INNER child (sizes are sums); in the middle: borrow / merge at height 1 under height 2
+	{name: "four-level-min-occupancy", script: append(desc("h"), "S"), keys: []string{"g", "m", "t", "u", "z0"}, ds: 3, dv: 4},
 }
 
 // ScenariosA returns the scale-A scenario list. Two families per prefill:
-//   struct: Set/Remove/Save/Reopen over a wide key alphabet (splits, merges, redistribution, root collapse),
-//   versions: the full alphabet (Rollback, LoadVersion, DeleteVersionsTo, GetImmutable) over a narrow key alphabet.
+//
+//	struct: Set/Remove/Save/Reopen over a wide key alphabet (splits, merges, redistribution, root collapse),
+//	versions: the full alphabet (Rollback, LoadVersion, DeleteVersionsTo, GetImmutable) over a narrow key alphabet.
 func ScenariosA(thorough bool) []*Scenario {
-	u := UniverseA()
+	u := UniverseA23()
 	var out []*Scenario
 	for pi, p := range prefillsA {
 		keys := u.idxs(p.keys...)
 		ds, dv := 4, 5
+		if p.ds != 0 {
+			ds = p.ds
+		}
+		if p.dv != 0 {
+			dv = p.dv
+		}
 		if thorough {
-			ds, dv = 5, 6
+			ds, dv = max(ds, 4)+1, max(dv, 4)+1
 		}
 		cache := []int{10000, 0, 2, 10000}[pi%4]
-		out = append(out, &Scenario{
-			Name: "A/struct/" + p.name, U: u, Cfg: Cfg{Cache: cache}, Prefill: u.Ops(p.script...), Snapshot: false,
-			Keys: keys, Reload: true, MaxSaves: 2, Depth: ds, Bounds: boundsOf(keys, u), Probe: &Probe{Keys: boundsOf(keys, u)[1:]},
-		})
+		if ds > 0 {
+			out = append(out, &Scenario{
+				Name: "A/struct/" + p.name, U: u, Cfg: Cfg{Cache: cache}, Prefill: u.Ops(p.script...), Snapshot: false,
+				Keys: keys, Reload: true, MaxSaves: 2, Depth: ds, Bounds: boundsOf(keys, u), Probe: &Probe{Keys: boundsOf(keys, u)[1:]},
+			})
+		}
+		if dv <= 0 {
+			continue
+		}
 		vk := keys
 		if len(vk) > 3 {
 			vk = []int{keys[0], keys[len(keys)/2], keys[len(keys)-1]}
@@ -134,13 +183,18 @@ type prefillB struct {
 
 // ScenariosB builds the B=32 scenarios: prefill of n keys (odd universe indexes, so every gap is insertable)
 // in ascending / descending / interleaved order, then an alphabet of keys adjacent to leaf boundaries.
-func ScenariosB(thorough bool) ([]*Scenario, error) {
+func ScenariosB(thorough bool) ([]*Scenario, error) { return scenariosB(thorough, false) }
+
+func scenariosB(thorough, quick23 bool) ([]*Scenario, error) {
 	sizes := []int{31, 32, 33, 512, 1024, 1056}
 	var out []*Scenario
 	for _, n := range sizes {
 		for oi, order := range []string{"asc", "desc", "mix"} {
 			if !thorough && ((n == 512 || n == 1056) && order == "mix" || n == 1024 && order != "mix") {
 				continue // quick: two insertion orders for 512/1056, one for 1024
+			}
+			if quick23 && n == 1024 {
+				continue // C23 quick runs the three inner-rebalancing start states (ScenariosBInner) instead
 			}
 			var ks []string
 			for i := 0; i <= 2*n+2; i++ {
@@ -238,13 +292,23 @@ func ScenariosB(thorough bool) ([]*Scenario, error) {
 			}
 			probe := &Probe{Keys: boundsOf(keys, u)[1:]}
 			out = append(out, &Scenario{
-				Name: fmt.Sprintf("B32/n%d-%s", n, order), U: u, Cfg: Cfg{Cache: []int{10000, 0, 3}[oi]}, Prefill: pre, Snapshot: true,
+				Name: fmt.Sprintf("B32/n%d-%s", n, order), U: u, Cfg: Cfg{Cache: cacheB(n, oi)}, Prefill: pre, Snapshot: true,
 				Keys: keys, Rollback: true, Reload: true, LoadVer: false, Prune: true, Imm: false, MaxSaves: 2, Depth: depth,
 				Probe: probe, Bounds: boundsOf(keys, u),
 			})
 		}
 	}
 	return out, nil
+}
+
+// cacheB: node-cache sizes of the B=32 scenarios by insertion order: unlimited / none / 3 nodes. Without a cache every
+// lookup deserialises and re-hashes a 32-slot node per level, so from 512 keys on "none" becomes 64 nodes (still
+// evicting: those trees have 17-35 nodes in each of 3-4 versions); the cache-less big tree is B32/h1-borrow-from-left.
+func cacheB(n, oi int) int {
+	if n >= 512 {
+		return []int{10000, 64, 3}[oi]
+	}
+	return []int{10000, 0, 3}[oi]
 }
 
 // BudgetSink caps a sub-phase at its own deadline (in addition to the run's budget).
@@ -268,4 +332,146 @@ func (b BudgetSink) ParFor(n int, f func(i int)) {
 		}
 		f(i)
 	})
+}
+
+// ---------- scale B, inner-level rebalancing one removal away ----------
+
+// ScenariosBInner builds three B=32 start states in which ONE removal rebalances at INNER level (descending insertion
+// leaves every node but the leftmost of each level at minimum occupancy, 16 keys / 16 children):
+//
+//	h1-borrow-from-left : 529 keys, inner fan-outs [17 16] — a removal under the right inner node merges two 16-key
+//	                      leaves, the node underflows to 15 children and takes the left node's last child
+//	h1-merge            : 785 keys, [17 16 16] — under the third inner node: nobody can spare, it merges into the second
+//	h1-borrow-from-right: the first one reshaped to [16 17] (one leaf merge on the left, 17 insertions splitting a leaf on
+//	                      the right) — a removal under the LEFTMOST inner node makes it take the right node's first child
+//
+// The alphabet is computed from the real structure: keys whose leaf and both leaf siblings are at minimum occupancy
+// under the node that has to underflow, the keys next to the inner-node boundary, an absent key, a key on the far side.
+func ScenariosBInner(thorough bool) ([]*Scenario, error) {
+	type kind struct {
+		name   string
+		n      int
+		target int // index of the inner node that must underflow
+		cache  int
+	}
+	var out []*Scenario
+	for _, kd := range []kind{{"h1-borrow-from-left", 529, 1, 0}, {"h1-merge", 785, 2, 64}, {"h1-borrow-from-right", 529, 0, 10000}} {
+		const stride = 3 // prefill keys are universe indexes 3i+1: two absent keys in every gap
+		var ks []string
+		for i := 0; i <= stride*kd.n+1; i++ {
+			ks = append(ks, keyB(i))
+		}
+		u := NewUniverse(ks, -1)
+		s := NewSys(u, Cfg{Cache: 10000})
+		m := NewModel(u)
+		var pre []Op
+		do := func(ops ...Op) error {
+			if i, d := Run(s, m, ops); d != "" {
+				return fmt.Errorf("B32 %s prefill op %d: %s", kd.name, len(pre)+i, d)
+			}
+			pre = append(pre, ops...)
+			return nil
+		}
+		for i := kd.n - 1; i >= 0; i-- {
+			if err := do(Op{OpSet, int16(stride*i + 1)}); err != nil {
+				return nil, err
+			}
+			if i == kd.n/2 {
+				if err := do(Op{K: OpSave}); err != nil {
+					return nil, err
+				}
+			}
+		}
+		// inner(i) = leaves (as universe indexes) under the i-th child of the root
+		inner := func(i int) ([][]int, error) {
+			d, err := bptree.VerifDumpWorking(s.T)
+			if err != nil {
+				return nil, err
+			}
+			if d == nil || d.Leaf || d.Height != 2 || i >= len(d.Children) {
+				return nil, fmt.Errorf("B32 %s: unexpected prefill shape (height/fan-out)", kd.name)
+			}
+			var ls [][]int
+			for _, lf := range d.Children[i].Children {
+				var l []int
+				for _, k := range lf.Keys {
+					l = append(l, u.Index(k))
+				}
+				ls = append(ls, l)
+			}
+			return ls, nil
+		}
+		if kd.name == "h1-borrow-from-right" {
+			l0, err := inner(0)
+			if err != nil {
+				return nil, err
+			}
+			if err := do(Op{OpRemove, int16(l0[2][0])}); err != nil { // leaves 1 and 2 (16 keys each) merge: 17 -> 16 children
+				return nil, err
+			}
+			l1, err := inner(1)
+			if err != nil {
+				return nil, err
+			}
+			lf := l1[len(l1)/2]
+			for j := 0; j < 17; j++ { // 16 + 17 keys: the leaf splits, 16 -> 17 children
+				if err := do(Op{OpSet, int16(lf[j/2] + 1 + j%2)}); err != nil {
+					return nil, err
+				}
+			}
+		}
+		if err := do(Op{K: OpSave}); err != nil {
+			return nil, err
+		}
+		tl, err := inner(kd.target)
+		if err != nil {
+			return nil, err
+		}
+		other := kd.target - 1
+		if kd.target == 0 {
+			other = 1
+		}
+		ol, err := inner(other)
+		if err != nil {
+			return nil, err
+		}
+		minLeaf := func(ls [][]int, from int) int { // first leaf >= from that is at minimum occupancy together with both siblings
+			for i := from; i+1 < len(ls); i++ {
+				if i > 0 && len(ls[i-1]) == 16 && len(ls[i]) == 16 && len(ls[i+1]) == 16 {
+					return i
+				}
+			}
+			return -1
+		}
+		a := minLeaf(tl, 1)
+		if a < 0 {
+			return nil, fmt.Errorf("B32 %s: no leaf at minimum occupancy with both siblings under the target inner node", kd.name)
+		}
+		set := map[int]bool{}
+		set[tl[a][0]] = true                            // removal => leaf merge => the target underflows
+		set[tl[a][7]+1] = true                          // absent key in that leaf
+		set[tl[0][0]] = true                            // first key of the target (the separator above it)
+		set[tl[len(tl)-1][len(tl[len(tl)-1])-1]] = true // its last key
+		if kd.target == 0 {
+			set[ol[0][0]] = true // first key of the right neighbour: the child that will be handed over
+		} else {
+			lo := ol[len(ol)-1]
+			set[lo[len(lo)-1]] = true // last key of the left neighbour
+		}
+		var keys []int
+		for k := range set {
+			keys = append(keys, k)
+		}
+		sort.Ints(keys)
+		depth := 2
+		if thorough {
+			depth = 3
+		}
+		out = append(out, &Scenario{
+			Name: "B32/" + kd.name, U: u, Cfg: Cfg{Cache: kd.cache}, Prefill: pre, Snapshot: true,
+			Keys: keys, Rollback: true, Reload: true, Prune: true, MaxSaves: 2, Depth: depth,
+			Probe: &Probe{Keys: boundsOf(keys, u)[1:]}, Bounds: boundsOf(keys, u),
+		})
+	}
+	return out, nil
 }
